@@ -30,6 +30,9 @@ func runC06(r *an.Run) {
 	c06MatchedFlag(r)
 	c06FileMatchNeedsNode(r)
 	c06APIReturnsSrc(r)
+	// an unmatched file is echoed once: every file is processed once per run (de-duplicated by absolute path)
+	c15OnceInOrder(r)
+	relabel(r, "R3-each-file-once-in-fixed-order", "R5-each-file-is-processed-once")
 }
 
 func c06NoEffectPath(r *an.Run, m *runModel) {
